@@ -105,6 +105,8 @@ def descent_rule(chk, prog):
                     stack.extend(s_ for s_ in x.succs if s_ not in body or True)
                 if fails and not bad:
                     ok = True
+        if not ok:
+            ok = _ancestor_predicate_guard(prog, f, creates)
         inst = "%s:ancestor-check" % f.name
         if ok:
             chk.ok("K1-loop", inst, creates[0] if creates else f, "the directory about to be entered is compared with the ones "
@@ -116,6 +118,113 @@ def descent_rule(chk, prog):
     if n == 0:
         chk.broke("no implementation of sqfs_dir_iterator_t.open_subdir opens image directories")
     return n
+
+
+def _leads_to_failing_return(f, start, creates):
+    seen, stack, fails = set(), [start], False
+    while stack:
+        x = stack.pop()
+        if x in seen:
+            continue
+        seen.add(x)
+        if any(c.bb is x for c in creates):
+            return False
+        if x.term.op == "ret":
+            fails = True
+        stack.extend(x.succs)
+    return fails
+
+
+def _ancestor_predicate_guard(prog, f, creates):
+    """the comparison loop sits in a static predicate of the same unit: the predicate loops over stored identities, answers
+    non-zero exactly on the paths behind a match of its equality test, and the caller's branch on that answer leads, on
+    'match', to a return that creates nothing; the call is placed so that the opening call cannot be reached without it"""
+    from ..errflow import ret_sources
+    for c in f.calls():
+        if not c.callee:
+            continue
+        h = prog.fn(c.callee, f.unit)
+        if h is None or h.decl or h.unit is not f.unit or h is f or h.ret not in ("i1", "i8", "i32"):
+            continue
+        if not all(f.dominates(c.bb, x.bb) for x in creates):
+            continue
+        h.build()
+        pred_ok = False
+        for (hh, body) in h.loops:
+            bodyvals = set(id(i) for b in body for i in b.insts)
+            for b in body:
+                t = b.term
+                if not (t.op == "br" and len(t.x["succ"]) == 2 and t.ops[0].is_inst and t.ops[0].op == "icmp" and
+                        t.ops[0].pred in ("eq", "ne")):
+                    continue
+                a, b2 = t.ops[0].ops
+                va = a.is_inst and id(a) in bodyvals and a.op == "load"
+                vb = b2.is_inst and id(b2) in bodyvals and b2.op == "load"
+                if not (va or vb):
+                    continue
+                # the other side is handed in by the caller
+                other = b2 if va else a
+                if not any(x.is_arg for x in [other] + list(backward_slice(other, phi_control=False))):
+                    continue
+                hit = t.x["succ"][0 if t.ops[0].pred == "eq" else 1]
+                if hit in body:
+                    continue
+                behind, st = set(), [hit]
+                while st:
+                    x = st.pop()
+                    if x in behind:
+                        continue
+                    behind.add(x)
+                    st.extend(x.succs)
+                srcs = ret_sources(h)
+                if not srcs:
+                    continue
+                good = True
+                for (v, sb) in srcs:
+                    w = strip_casts(v)
+                    if not (w.is_const and w.is_int):
+                        good = False
+                        break
+                    on_hit = sb in behind and sb is not h.blocks[0] and (sb is hit or not any(sb is q for q in body))
+                    if sb is hit or (on_hit and not _reached_without(h, sb, hit)):
+                        good = good and w.uval != 0
+                    else:
+                        good = good and w.uval == 0
+                if good:
+                    pred_ok = True
+        if not pred_ok:
+            continue
+        # the caller's branch on the answer
+        for b in f.blocks:
+            t = b.term
+            if not (t.op == "br" and len(t.x["succ"]) == 2):
+                continue
+            cond = t.ops[0]
+            match = None
+            w = cond
+            while w.is_inst and w.op in ("trunc", "zext") and w.ops[0].is_inst:
+                w = w.ops[0]
+            if w is c:
+                match = t.x["succ"][0]
+            elif w.is_inst and w.op == "icmp" and w.pred in ("ne", "eq"):
+                x0, x1 = w.ops
+                y = x0
+                while y.is_inst and y.op in ("trunc", "zext") and y.ops[0].is_inst:
+                    y = y.ops[0]
+                if y is c and x1.is_const and x1.is_int and x1.uval == 0:
+                    match = t.x["succ"][0 if w.pred == "ne" else 1]
+            if match is None:
+                continue
+            if all(f.dominates(b, x.bb) for x in creates) and _leads_to_failing_return(f, match, creates):
+                return True
+    return False
+
+
+def _reached_without(h, target, avoid):
+    """is `target` reachable from the entry without passing through `avoid`"""
+    if target is avoid:
+        return False
+    return h.reaches(h.blocks[0], target, avoid=(avoid,))
 
 
 def loop_guard_rule(chk, prog):
